@@ -41,6 +41,23 @@ def handle (entry : String) (j : Json) : Except String Json := do
       ("horner", Json.bool (match mkFilter b a with
           | some f => f.num.all (fun t => decide (0 ≤ t.1))
           | none => false))]
+  | "freqd" =>
+    -- one filter given as {delay: coefficient} dicts (insertion order kept), a container of points
+    let getTerm (t : Json) : Except String (Int × GRat) :=
+      match t with
+      | Json.arr [k, c] => do pure (← getInt k, ← getG c)
+      | _ => throw "bad term"
+    let num ← getList getTerm (← field j "bt")
+    let den ← getList getTerm (← field j "at")
+    let ws ← getList getG (← field j "ws")
+    pure <| Json.mkObj [
+      ("model", arr respToJson (elementwise (respOfTerms num den) ws)),
+      ("spec", arr respToJson (elementwise (respSpecTerms num den) ws)),
+      ("ctor_model", Json.bool (mkFilterTerms num den).isNone),
+      ("ctor_spec", Json.bool (den.all (fun t => decide (t.2 = 0)))),
+      ("horner", Json.bool (match mkFilterTerms num den with
+          | some f => f.num.all (fun t => decide (0 ≤ t.1))
+          | none => false))]
   | "bank" =>
     let kind ← getStr (← field j "kind")
     let bank ← getList getFilt (← field j "bank")
